@@ -200,8 +200,16 @@ Definition report_effects (o : oracle) (root : string) (s : sfacts) (embedded : 
   end.
 
 (* what `up` learns before it writes anything: budget prefix and settings facts (None: it exits first) *)
-Definition up_context (o : oracle) (st : state) : option (string * sfacts) :=
-  match find_root st with
+(* an explicit config directory (argument or TALLY_CONFIG, however it is spelled) designates the budget whose
+   prefix is [r]; it must exist; without one, find_config_dir decides *)
+Definition root_for (cfg : option string) (st : state) : option string :=
+  match cfg with
+  | Some r => if isdir st (r ++ "config") then Some r else None
+  | None => find_root st
+  end.
+
+Definition up_context (o : oracle) (cfg : option string) (st : state) : option (string * sfacts) :=
+  match root_for cfg st with
   | None => None
   | Some root =>
     match fget st (root ++ P_SETTINGS) with
@@ -214,9 +222,9 @@ Definition up_context (o : oracle) (st : state) : option (string * sfacts) :=
     end
   end.
 
-Definition up_stages (o : oracle) (migrate embedded : bool) (f : fmt) (out : option (string * string))
+Definition up_stages (o : oracle) (cfg : option string) (migrate embedded : bool) (f : fmt) (out : option (string * string))
            (st : state) : list stage :=
-  match up_context o st with
+  match up_context o cfg st with
   | None => []
   | Some (root, s) =>
     [ (fun st1 => if (migrate && csv_format st1 root s)%bool then mig_effects o root st1 else []);
@@ -272,7 +280,7 @@ Definition init_stages (o : oracle) (t : target) (st : state) : list stage :=
 
 (* ---------------------------------------------------------------- commands *)
 Inductive cmd :=
-| Up (migrate embedded : bool) (f : fmt) (out : option (string * string))
+| Up (cfg : option string) (migrate embedded : bool) (f : fmt) (out : option (string * string))
 | Explain | Discover | Diag | Inspect (file : string)
 | Workflow | Reference
 | UpdateNoConsent          (* `tally update` without --yes, stdin not a terminal *)
@@ -280,7 +288,7 @@ Inductive cmd :=
 
 Definition stages (o : oracle) (c : cmd) (st : state) : list stage :=
   match c with
-  | Up m e f out => up_stages o m e f out st
+  | Up cfg m e f out => up_stages o cfg m e f out st
   | Init t => init_stages o t st
   | _ => []
   end.
@@ -293,7 +301,7 @@ Definition run_seq (o : oracle) (cs : list cmd) (st : state) : state := fold_lef
 (* the output location of a command in a state: exactly the report files it may (over)write *)
 Definition report_paths (o : oracle) (c : cmd) (st : state) : list path :=
   match c with
-  | Up _ e f out => match up_context o st with
+  | Up cfg _ e f out => match up_context o cfg st with
                     | Some (root, s) => if is_html f then report_files root s e out else []
                     | None => []
                     end
@@ -302,15 +310,17 @@ Definition report_paths (o : oracle) (c : cmd) (st : state) : list path :=
 
 (* commands the property calls read-only: everything except init and `up --migrate` *)
 Definition readonly (c : cmd) : bool :=
-  match c with Up m _ _ _ => negb m | Init _ => false | _ => true end.
+  match c with Up _ m _ _ _ => negb m | Init _ => false | _ => true end.
 Definition requests_migration (c : cmd) : bool :=
-  match c with Up m _ _ _ => m | Init _ => true | _ => false end.
+  match c with Up _ m _ _ _ => m | Init _ => true | _ => false end.
+Definition cmd_cfg (c : cmd) : option string := match c with Up cfg _ _ _ _ => cfg | _ => None end.
+Definition is_up (c : cmd) : bool := match c with Up _ _ _ _ _ => true | _ => false end.
 
 (* name of the command in cli.main's dispatch (Gen.reach_writers is keyed by it) and the write-site classes
    the model lets it use *)
 Definition cmd_name (c : cmd) : string :=
   match c with
-  | Up _ _ _ _ => "up" | Explain => "explain" | Discover => "discover" | Diag => "diag" | Inspect _ => "inspect"
+  | Up _ _ _ _ _ => "up" | Explain => "explain" | Discover => "discover" | Diag => "diag" | Inspect _ => "inspect"
   | Workflow => "workflow" | Reference => "reference" | UpdateNoConsent => "update" | Init _ => "init"
   end.
 Definition allowed (name : string) : list owner :=
